@@ -7,7 +7,9 @@ id calls the merge function on the two ids (here: keep the smaller id, emit the 
 which is what the e-graph's merge function and the harness's do) — the union only becomes visible
 to `find` after the next `merge_all`, so a pass is a single sweep, not a fixpoint.
 
-Not modelled: the code also rewrites the entry's OWN id (`rebuilder.rebuild_val(old_val)`).  Ids
+`rebuildPassId` also rewrites the entry's OWN id (`rebuilder.rebuild_val(old_val)`), as the code
+does; the theorems are about `rebuildPass`, which does not, and `C14_rebuild_ids_canonical` shows
+the two coincide when no stored container's id is displaced.  Ids
 of containers are unioned only by the merge function, and the loser of a merge leaves the table in
 the same pass, so at the start of a pass no id of a stored container is displaced; the
 correspondence run checks exactly this precondition on every pass before it compares (a pass that
@@ -40,6 +42,14 @@ def passStep (find : Nat → Nat) (acc : Tab × List (Nat × Nat)) (e : Nat × L
 /-- one `rebuild_containers` pass: the new table and the unions handed to the merge function -/
 def rebuildPass (find : Nat → Nat) (t : Tab) : Tab × List (Nat × Nat) :=
   t.foldl (passStep find) ([], [])
+
+/-- the pass as the code runs it: the entry's own id is rewritten too (`rebuild_val(old_val)`) -/
+def passStepId (find : Nat → Nat) (acc : Tab × List (Nat × Nat)) (e : Nat × List Nat) : Tab × List (Nat × Nat) :=
+  let r := insertMerge acc.1 (find e.1) (e.2.map find)
+  (r.1, acc.2 ++ r.2)
+
+def rebuildPassId (find : Nat → Nat) (t : Tab) : Tab × List (Nat × Nat) :=
+  t.foldl (passStepId find) ([], [])
 
 def ValuesDistinct (t : Tab) : Prop := t.Pairwise (fun a b => a.2 ≠ b.2)
 
